@@ -85,15 +85,27 @@ package node
 //@   note for a nil pointer the hash of the empty string
 
 //@ func InternalNode.UpdateHash
-//@   trusted
+//@   props C04
+//@   requires n != nil
 //@   modifies n.Hash
-//@   ensures n.Hash == IHash(n)
-//@   note H(0x02 || le16(LabelBitLength) || Label || h(LeafNode) || h(Left) || h(Right)); the byte layout is not modelled
+//@   trustframe
+//@   precall hash\.Hash\)\.FromBytes$ :: argc() == 6 && len(argAs[[]byte](0)) == 1 && argAs[[]byte](0)[0] == PrefixInternalNode
+//@   precall hash\.Hash\)\.FromBytes$ :: argIs(1, labelBitLength) && bytesId(labelBitLength) == uf("depthBytes", n.LabelBitLength)
+//@   precall hash\.Hash\)\.FromBytes$ :: bytesId(argAs[[]byte](2)) == bytesId(n.Label) && len(argAs[[]byte](2)) == len(n.Label)
+//@   precall hash\.Hash\)\.FromBytes$ :: bytesId(argAs[[]byte](3)) == bytesId(leafNodeHash[:]) && bytesId(argAs[[]byte](4)) == bytesId(leftHash[:]) && bytesId(argAs[[]byte](5)) == bytesId(rightHash[:]) && len(argAs[[]byte](3)) == 32 && len(argAs[[]byte](4)) == 32 && len(argAs[[]byte](5)) == 32 && leafNodeHash == PH(n.LeafNode) && leftHash == PH(n.Left) && rightHash == PH(n.Right)
+//@   defines n.Hash == IHash(n)
+//@   note the hash input is checked argument by argument: exactly six parts, in this order - the internal-node prefix byte, the serialized label bit length, the label, and the hashes of the leaf, left and right pointers (empty hash for nil). That the SHA-512/256 of this input IS IHash(n) is the definition of IHash (assumed)
 
 //@ func LeafNode.UpdateHash
-//@   trusted
+//@   props C04
+//@   requires n != nil
 //@   modifies n.Hash
-//@   ensures n.Hash == LHash(n)
+//@   trustframe
+//@   precall hash\.Hash\)\.FromBytes$ :: argc() == 5 && len(argAs[[]byte](0)) == 1 && argAs[[]byte](0)[0] == PrefixLeafNode
+//@   precall hash\.Hash\)\.FromBytes$ :: bytesId(argAs[[]byte](2)) == bytesId(n.Key) && len(argAs[[]byte](2)) == len(n.Key) && bytesId(argAs[[]byte](4)) == bytesId(n.Value) && len(argAs[[]byte](4)) == len(n.Value)
+//@   precall hash\.Hash\)\.FromBytes$ :: bytesId(argAs[[]byte](1)) == bytesId(keyLen[:]) && bytesId(argAs[[]byte](3)) == bytesId(valueLen[:]) && len(argAs[[]byte](1)) == 4 && len(argAs[[]byte](3)) == 4
+//@   defines n.Hash == LHash(n)
+//@   note five parts in this order: the leaf prefix byte, the 4-byte key length, the key, the 4-byte value length, the value
 
 //@ func InternalNode.GetHash
 //@   props C04
